@@ -594,7 +594,7 @@ func ruleC20d(c *Ctx) {
 func init() {
 	register(&PropSpec{
 		ID:          "C20",
-		Explanation: "Decides the structural clause 'the codec tables are complete and symmetric': every expr.Expr implementation registered once with a unique msgpack extension id; goexpr types constructible from SQL registered; every field read by an expression's behavioural methods restored on decode (exported/default-coded or assigned in DecodeMsgpack, function-valued fields from the constructor's registry); custom encoder/decoder operand sequences equal; all message structs crossing SendMsg/RecvMsg fully exported (FlatRow.fields restored by the receiver). Added clauses: every RecvMsg in a loop decodes into an object allocated in that iteration; the follower's query context carries the request's IncludeMemStore on every path and its deadline.",
+		Explanation: "Decides the structural clause 'the codec tables are complete and symmetric': every expr.Expr implementation registered once with a unique msgpack extension id; goexpr types constructible from SQL registered; every field read by an expression's behavioural methods restored on decode (exported/default-coded or assigned in DecodeMsgpack, function-valued fields from the constructor's registry); custom encoder/decoder operand sequences equal; all message structs crossing SendMsg/RecvMsg fully exported (FlatRow.fields restored by the receiver). Added clauses: every RecvMsg in a loop decodes into an object allocated in that iteration; the follower's query context carries the request's IncludeMemStore on every path and its deadline. Further clauses: Marshal returns bytes that are not recycled; errors are marked retriable only where no row of the partition can have been delivered.",
 		NotDecided:  []string{"byte-level fidelity of msgpack, snappy and gRPC", "float formatting / NaN payloads", "value equality of decoded expressions on data (needs execution)"},
 		Assumptions: []string{"msgpack v3.1.4: structs are encoded as maps of exported and embedded fields; types with EncodeMsgpack/DecodeMsgpack use those; RegisterExt ids select the decoded type"},
 		Rules:       []func(*Ctx){ruleC20a, ruleC20b, ruleC20c, ruleC20d, ruleC20e, ruleC20f, ruleC20g, ruleC20h, ruleC20i, ruleC20j},
